@@ -58,6 +58,7 @@ type Session struct {
 	ExtTable     string `json:"extTable"`
 	Rounds       int    `json:"rounds"` // input blocks (stream: one per OnInput round)
 	Seed         int64  `json:"seed"`
+	BigRows      int    `json:"bigRows"` // > 0: the first input block and the external-data block have this many incompressible rows
 	// further queries on the same connection (their query fields only; connection-level fields come from this one)
 	More []Session `json:"more"`
 }
@@ -431,6 +432,15 @@ func runQuery(s Session, cl *ch.Client, conn *simconn.Conn, base, rev int) (Even
 	if s.Ext {
 		e := b.U8.New()
 		vals := []any{[]int{7}, []int{9}}
+		if s.BigRows > 0 {
+			// (beyond 16 KiB even after compression)
+			vals = vals[:0]
+			z := uint64(s.Seed)*2654435761 + 12345
+			for i := 0; i < 9*s.BigRows; i++ {
+				z = z*6364136223846793005 + 1442695040888963407
+				vals = append(vals, []int{int(z >> 56)})
+			}
+		}
 		for _, v := range vals {
 			e.Append(v)
 		}
@@ -441,13 +451,23 @@ func runQuery(s Session, cl *ch.Client, conn *simconn.Conn, base, rev int) (Even
 			tbl = "_data"
 		}
 		packets = append(packets, packet{Table: tbl, Names: []any{ints([]byte("e"))}, Types: []any{ints([]byte("UInt8"))},
-			ASTs: []map[string]any{b.U8.AST()}, Rows: 2, Cols: []any{vals}})
+			ASTs: []map[string]any{b.U8.AST()}, Rows: len(vals), Cols: []any{vals}})
 	}
 	packets = append(packets, blankPacket())
 	fill := func(round int) (vv, sv []any) {
 		n := 1 + (round+int(s.Seed))%3
+		big := s.BigRows > 0 && round == 0
+		if big {
+			n = s.BigRows
+		}
 		for i := 0; i < n; i++ {
 			x := uint64(round*1000 + i)
+			if big {
+				z := uint64(s.Seed)*1000003 + uint64(i) + 0x9e3779b97f4a7c15
+				z = (z ^ (z >> 30)) * 0xbf58476d1ce4e5b9
+				z = (z ^ (z >> 27)) * 0x94d049bb133111eb
+				x = z ^ (z >> 31)
+			}
 			vv = append(vv, ints(binary.LittleEndian.AppendUint64(nil, x)))
 			sv = append(sv, ints([]byte(fmt.Sprintf("r%d-%d-%s", round, i, s.ID))))
 		}
